@@ -2,6 +2,8 @@ package checks
 
 import (
 	"fmt"
+	"os"
+	"strings"
 	"testing"
 	"time"
 
@@ -256,6 +258,39 @@ events:
 				released = true
 				gate.Release()
 			}
+		case ev == "M":
+			// many other requests on the same connection (more than 2^15, and in the
+			// thorough tier more than 2^16) while the target is in flight
+			if ended {
+				continue
+			}
+			total := 34000
+			if os.Getenv("VERIF_TIER") == "thorough" {
+				total = 70000
+			}
+			for sent := 0; sent < total; {
+				base := len(p.frames)
+				n := min(500, total-sent)
+				for j := 0; j < n; j++ {
+					p.s.Send(refcodec.Encode(withTag(tClunk(7777), uint16(0x3000+j))))
+				}
+				for dl := time.Now().Add(30 * time.Second); len(p.frames) < base+n; {
+					if f := p.drain(2 * time.Millisecond); f != nil {
+						return f
+					}
+					if time.Now().After(dl) {
+						return failf("unrelated-request-delayed", "filler requests were not all answered within 30 s during the flush scenario: %s", desc())
+					}
+				}
+				sent += n
+			}
+			kept := p.frames[:0:0] // (the fillers' replies are of no further interest)
+			for _, fr := range p.frames {
+				if fr.Tag < 0x3000 || fr.Tag >= 0x3000+500 {
+					kept = append(kept, fr)
+				}
+			}
+			p.frames = kept
 		case ev == "V":
 			// a second Tversion in mid-session (same parameters) while the target is in flight
 			if ended {
@@ -550,6 +585,30 @@ func TestC14(t *testing.T) {
 	h := begin(t, "C14")
 	defer h.Finish()
 	env := h.Env
+	// a flush that arrives after tens of thousands of other requests still waits
+	{
+		many := []flushCase{}
+		for _, tgt := range []string{"read", "getattr", "walk3"} {
+			for _, evs := range [][]string{{"M", "F1:t", "R"}, {"F1:t", "M", "F2:t", "R"}} {
+				many = append(many, flushCase{Native: len(many)%2 == 0, Target: tgt, HoldAt: 1, Events: evs})
+			}
+		}
+		for i, c := range many {
+			if i%env.NShards != env.Shard {
+				continue
+			}
+			st := &flushStats{}
+			f := runFlushCase(c, st)
+			h.Case(evid.HashJSON(c), true, "flush-after-many-requests")
+			if f != nil && strings.HasPrefix(f.Sig, "harness-") {
+				t.Errorf("HARNESS-ERROR %s", f.Msg)
+				continue
+			}
+			if h.report("enumerated", f, c) {
+				return
+			}
+		}
+	}
 	// the tag of a frame the receiver rejected is idle
 	rapidCases(h, "after-rejected-frame", env.PerShard(env.Pick(1600, 60000)), func(rt *rapid.T) rejectedFlushCase {
 		var c rejectedFlushCase
